@@ -50,7 +50,9 @@ CLAIMED = {
          "DESIGN.md §3 C07"),
  "C22": ("E-MIR", "proof", "MIR value-provenance: returned order == toposort(Reversed(graph)).map_err(..); edge-direction provenance at every add/update_edge; forward-only consumers",
          "With petgraph's toposort contract the checked facts imply the stated property for every graph: each package once, dependencies "
-         "first, Err on any cycle. All obligations must be discharged.",
+         "first, Err on any cycle: the plan's order is the result of toposort(Reversed(graph)) mapped through map_err, stored in the BuildPlan "
+         "unmodified (moved from the call, no mutable borrow or hand-off in between), consumed forward only, and edges point from dependent "
+         "to dependency at every construction site. All obligations must be discharged. (A gap in the 'stored unmodified' obligation was found by a seeded change and closed.)",
          "Trusted: petgraph::algo::toposort contract; rustc MIR. Consumers outside forc-pkg/forc-test/sway-lsp are not analysed.",
          "DESIGN.md §3 C22"),
 
@@ -94,7 +96,7 @@ CLAIMED = {
          "Decides: the emitted storage slots and the generated storage accesses take a field's key from the same function with the same inputs; "
          "the implicit key is sha256(domain byte 0 ++ `storage[::ns]*.field`) with the domain fed first and an explicit `in` key used verbatim; "
          "StorageMap hashes under a different domain byte placed first; multi-slot values use key + i; the slot serializer has no pad count that is "
-         "non-zero for aligned lengths. The byte layout of values inside slots versus what std::storage reads reassemble is not decided.",
+         "non-zero for aligned lengths. a storage access resolves its declared field by name and the complete namespace path. The byte layout of values inside slots versus what std::storage reads reassemble is not decided.",
          "Trusted: rustc MIR; syn; fuel_crypto::Hasher = SHA-256 of concatenated inputs.",
          "DESIGN.md §3 C12"),
  "C13": ("E-MIR+E-TAB", "other", "MIR result-provenance on Entry::equiv, who-constructs / who-calls rules on configurable entries and LoadDataId, AGREE between the offset function and the serializer (syn), commutativity (mirrored-arm canonical form) and bound-selection SPEC on the encoded-size lattice",
@@ -124,14 +126,16 @@ CLAIMED = {
  "C16": ("E-MIR", "other", "MIR call-graph cone + panic-site enumeration with guard idioms; Span constructor encapsulation; char-boundary provenance (backward slices, inter-procedural through params/captures) of every offset handed to the lexer's span constructors",
          "Decides: every potentially panicking MIR construct reachable from lex / lex_commented / parse_file / parse_module_kind is "
          "discharged by a machine-checked idiom or a reviewed exactly-keyed site (any new site alarms); Span values can only be built "
-         "behind Span::new's `text.get(start..end)?` check; every offset the lexer turns into a span derives from char-boundary sources; "
+         "behind Span::new's `text.get(start..end)?` check; every offset the lexer turns into a span derives from char-boundary sources, a width added to a position is the width of "
+         "the character of the same stream item (operands resolved through copies, `?`, wrappers, parameters and captures) and any other offset "
+         "addition in token.rs is a reviewed site (spec/c16_offsets.txt); "
          "in-workspace callers give lex_commented valid ranges. Termination / stack depth are not decided.",
          "Trusted: rustc MIR/resolution; std, unicode-xid, num-bigint on the paths used; ~70 reviewed sites (spec/c16_sites.txt), each with its argument.",
          "DESIGN.md §3 C16"),
  "C23": ("E-MIR", "other", "MIR unit-of-measure taint (UTF-16 column vs byte offsets) + panic-site enumeration + dominance/provenance rules on apply_change, validate_range, position_to_index, calculate_line_offsets",
          "Decides structural clauses of document sync: the UTF-16 column reaches byte offsets only through a per-char len_utf16 count; "
          "indices handed to replace_range are char boundaries by provenance and are exactly the validated ones (start<=end<=len) on the Ok "
-         "edge of validate_range; no unreviewed panicking construct in the change-application cone; the line table is rebuilt after every "
+         "edge of validate_range; positions are converted / validated only inside apply_change, against the text the change applies to; no unreviewed panicking construct in the change-application cone; the line table is rebuilt after every "
          "content mutation; full-text changes replace the content and changes apply in order with errors propagated. Equality with the "
          "client's text for every edit sequence is the conjunction of these with std's String contracts and is not decided as a whole.",
          "Trusted: rustc MIR/resolution; String::replace_range, char_indices, len_utf16 contracts; three reviewed arithmetic sites (spec/c23_sites.txt).",
@@ -140,7 +144,8 @@ CLAIMED = {
          "Decides: every content-bearing field (everything except fixed-text keyword/punctuation/opcode tokens, spans and 4 reviewed fields) of every "
          "non-error variant of the 69 formatted syntax-tree nodes is read in reach(<T as Format>::format); format_module runs comment-map setup, "
          "module formatting, trailing comments and newline restoration in order with errors propagated; comments_between tests every entry contained "
-         "in the range; comment weaving receives the node's own span and leaf spans. Necessary for token/comment preservation; what is emitted per "
+         "in the range without truncation; comment weaving receives the node's own span and leaf spans; a `//` comment is written without a line end "
+         "only under a condition that guarantees the following text starts on a new line. Necessary for token/comment preservation; what is emitted per "
          "field is not compared token by token.",
          "Trusted: rustc MIR/resolution; token types carry fixed text; LeafSpans gaps (listed in evidence) only misplace comments.",
          "DESIGN.md §3 C19"),
@@ -148,7 +153,8 @@ CLAIMED = {
          "Decides: for each pinned-source kind and for dependency lines the reader consumes exactly the separators the writer emits and takes "
          "each from the side on which the neighbouring fields cannot contain it; git reference keywords, the member keyword and the source "
          "prefixes are inverse / distinct; every PkgLock field written is read back, library and contract dependency lists are not swapped, "
-         "salts are rebuilt, and both directions disambiguate names with the same function. Equality of the reconstructed graph for all "
+         "salts are rebuilt, both directions disambiguate names with the same function, and no foreign type whose formatter is known to be lossy "
+         "(gix_url::Url's Display redacts passwords) is formatted in forc_pkg. Equality of the reconstructed graph for all "
          "graphs also depends on third-party Display/FromStr pairs and is not decided.",
          "Trusted: syn; rustc MIR; spec/c20_grammar.txt character classes; semver / gix-url / cid / fuel-tx Display-FromStr round-trips.",
          "DESIGN.md §3 C20"),
@@ -196,7 +202,8 @@ CLAIMED = {
  "C29": ("E-TAB+E-MIR", "other", "finite-domain abstract evaluation of TestResult::passed over its syntax tree (4 expectations x 8 final states, exact for every case the code can distinguish); MIR provenance rules for per-test setup, storage cloning and reported fields",
          "Decides: the pass/fail verdict equals the stated table on a finite domain that separates ShouldRevert(Some c) / ShouldRevert(None) / "
          "ShouldNotRevert and Revert(c) / Revert(c') / non-revert states; every test's executor receives a TestSetup produced inside the per-test "
-         "closure and builds its interpreter on a clone of that storage; forc-test has no process-wide state; the reported condition, state and logs "
+         "closure and builds its interpreter on a clone of that storage; the executor a test runs on derives only from the build call of the same "
+         "invocation and is never re-pointed at another test; forc-test has no process-wide state; the reported condition, state and logs "
          "are the test's own; the attribute-to-expectation mapping builds the right variants. The VM's own isolation is trusted.",
          "Trusted: syn; rustc MIR; fuel-vm Interpreter::with_storage; MemoryStorage::clone deep-copies. Unsupported syntax in passed() is reported as ANALYSIS-ERROR, not as a violation.",
          "DESIGN.md §3 C29"),
